@@ -975,7 +975,10 @@ class SFloat:
         """numpy.round / round-half-even to `decimals` places; keeps a reference to the un-rounded operand"""
         eng = self.eng
         if eng.mode != "real":
-            eng._raise(Unsupported("round in fp mode"))
+            # fp mode: the rounded value is an opaque double (only formatted, never decided on); it remembers its operand
+            out = SFloat(eng, z3.FP(f"round!{next(eng._fresh)}", F64), self.np)
+            out.orig = self
+            return out
         scale = 10 ** decimals
         st = z3.simplify(self.t * scale)
         key = ("round", st.get_id())
